@@ -288,16 +288,22 @@ func (h *baseHandler) flush() {
 	numUnsentMessages := func() int {
 		return len(h.lines) + len(h.serverMessages) + len(h.maprMessages)
 	}
-	for i := 0; i < 10; i++ {
+	// Wait until the client has taken everything which is still queued (however slowly it
+	// reads), otherwise the close handshake could overtake lines and they would be lost.
+	for {
 		if numUnsentMessages() == 0 {
 			dlog.Server.Debug(h.user, "ALL lines sent", fmt.Sprintf("%p", h))
 			return
 		}
 		dlog.Server.Debug(h.user, "Still lines to be sent")
-		time.Sleep(time.Millisecond * 10)
+		select {
+		case <-time.After(time.Millisecond * 10):
+		case <-h.done.Done():
+			vhook.Point("srv.flush.timeout")
+			dlog.Server.Warn(h.user, "Some lines remain unsent", numUnsentMessages())
+			return
+		}
 	}
-	vhook.Point("srv.flush.timeout")
-	dlog.Server.Warn(h.user, "Some lines remain unsent", numUnsentMessages())
 }
 
 func (h *baseHandler) shutdown() {
